@@ -86,6 +86,15 @@ class Interp(object):
         self.ext = externals
         self.kind_types = kind_types
         self.steps = steps
+        self.module_assigns = {}     # name -> ast expression of a module-level assignment (evaluated on first use, in `module_env`)
+        self.module_env = None
+        self._globals = {}
+
+    def with_module(self, mod, env):
+        """let the interpreted functions see the module's top-level constants (tables, tuples of names, ...) and functions"""
+        self.module_assigns = dict((k, v[-1]) for k, v in mod.assigns.items() if v)
+        self.module_env = env
+        return self
 
     def call_function(self, node, args, env=None, kwargs=None):
         env = dict(env or {})
@@ -188,6 +197,18 @@ class Interp(object):
     def assign(self, t, v, env):
         if isinstance(t, ast.Name):
             env[t.id] = v
+        elif isinstance(t, (ast.Tuple, ast.List)) and any(isinstance(e, ast.Starred) for e in t.elts):
+            vals = list(self.iterate(v))
+            k = [i for i, e in enumerate(t.elts) if isinstance(e, ast.Starred)]
+            if len(k) != 1 or len(vals) < len(t.elts) - 1:
+                raise Undecided('starred unpack')
+            k = k[0]
+            after = len(t.elts) - k - 1
+            for e, x in zip(t.elts[:k], vals[:k]):
+                self.assign(e, x, env)
+            self.assign(t.elts[k].value, vals[k:len(vals) - after], env)
+            for e, x in zip(t.elts[k + 1:], vals[len(vals) - after:]):
+                self.assign(e, x, env)
         elif isinstance(t, (ast.Tuple, ast.List)):
             vals = list(self.iterate(v))
             if len(vals) != len(t.elts):
@@ -214,10 +235,12 @@ class Interp(object):
             return list(v)
         if isinstance(v, dict):
             return list(v.keys())
+        if isinstance(v, (frozenset, set)):
+            return sorted(v, key=repr)
         raise Undecided('iteration over %r' % (v,))
 
     def truth(self, v):
-        if isinstance(v, (bool, int, list, tuple, range, dict)) or v is None:
+        if isinstance(v, (bool, int, list, tuple, range, dict, frozenset, set)) or v is None:
             return bool(v)
         if isinstance(v, str):
             return bool(v)
@@ -238,8 +261,17 @@ class Interp(object):
                 return {'True': True, 'False': False, 'None': None}[e.id]
             if e.id == 'Ellipsis':
                 return Kind('ELLIPSIS')
-            if e.id in self.ext or e.id in ('len', 'range', 'all', 'any', 'enumerate', 'isinstance', 'zip', 'sum', 'min', 'max', 'sorted', 'abs', 'reversed'):
+            if e.id in self.ext or e.id in ('len', 'range', 'all', 'any', 'enumerate', 'isinstance', 'zip', 'sum', 'min', 'max', 'sorted', 'abs', 'reversed',
+                                            'next', 'iter', 'map', 'filter', 'hasattr', 'getattr', 'type', 'callable', 'repr'):
                 return ('builtin', e.id)
+            if e.id in ('frozenset', 'set', 'object', 'complex'):
+                return TypeTok(e.id)
+            if e.id in self._globals:
+                return self._globals[e.id]
+            if e.id in self.module_assigns:
+                v = self.expr(self.module_assigns[e.id], self.module_env if self.module_env is not None else env)
+                self._globals[e.id] = v
+                return v
             raise Undecided('unknown name %s' % e.id)
         if isinstance(e, ast.Attribute):
             d = ast.unparse(e)
@@ -259,6 +291,9 @@ class Interp(object):
                 return ('builtin', d)
             if d in ('np.integer', 'np.ndarray'):
                 return TypeTok(d)
+            if d in ('itertools.takewhile', 'itertools.dropwhile', 'itertools.chain', 'itertools.chain.from_iterable', 'itertools.product', 'itertools.count',
+                     'functools.reduce', 'functools.partial', 'operator.or_', 'operator.and_', 'operator.add'):
+                return ('builtin', d)
             raise Undecided('unknown attribute %s' % d)
         if isinstance(e, (ast.Tuple, ast.List)):
             vals = []
@@ -270,6 +305,16 @@ class Interp(object):
             return tuple(vals) if isinstance(e, ast.Tuple) else vals
         if isinstance(e, (ast.ListComp, ast.GeneratorExp)):
             return self.comp(e, env)
+        if isinstance(e, ast.Lambda):
+            fn = ast.FunctionDef(name='<lambda>', args=e.args, body=[ast.Return(value=e.body)], decorator_list=[], returns=None, type_comment=None, type_params=[])
+            ast.copy_location(fn, e)
+            ast.fix_missing_locations(fn)
+            return Closure(fn, env, self)
+        if isinstance(e, ast.Set):
+            try:
+                return frozenset(self.expr(x, env) for x in e.elts)
+            except TypeError:
+                raise Undecided('unhashable set element')
         if isinstance(e, ast.Dict):
             d = {}
             for k, v in zip(e.keys, e.values):
@@ -380,6 +425,15 @@ class Interp(object):
         if isinstance(op, (ast.Is, ast.IsNot)) and (a is None or b is None or isinstance(a, Kind) or isinstance(b, Kind)):
             r = (a is b) or (isinstance(a, Kind) and a == b)
             return r if isinstance(op, ast.Is) else not r
+        if isinstance(op, (ast.In, ast.NotIn)) and isinstance(b, (frozenset, set)):
+            try:
+                r = a in b
+            except TypeError:
+                raise Undecided('unhashable member')
+            return r if isinstance(op, ast.In) else not r
+        if isinstance(op, (ast.In, ast.NotIn)) and isinstance(b, str) and isinstance(a, str):
+            r = a in b
+            return r if isinstance(op, ast.In) else not r
         if isinstance(op, (ast.In, ast.NotIn)) and isinstance(b, dict):
             try:
                 r = a in b
@@ -474,6 +528,27 @@ class Interp(object):
                 if args == [None]:
                     return Kind('FULL')
                 return Kind('SL')
+            if f.name in ('frozenset', 'set') and len(args) <= 1:
+                try:
+                    return frozenset(self.iterate(args[0])) if args else frozenset()
+                except TypeError:
+                    raise Undecided('unhashable set element')
+            if f.name == 'dict' and len(args) <= 1:
+                d = {}
+                if args:
+                    src = args[0]
+                    if isinstance(src, dict):
+                        d.update(src)
+                    else:
+                        for kv in self.iterate(src):
+                            k, v = self.iterate(kv)
+                            d[k] = v
+                d.update(kwargs)
+                return d
+            if f.name == 'bool' and len(args) == 1:
+                return self.truth(args[0])
+            if f.name == 'int' and len(args) == 1 and isinstance(args[0], (int, bool)):
+                return int(args[0])
             raise Undecided('constructor %s' % f.name)
         if isinstance(f, tuple) and f[0] == 'builtin':
             n = f[1]
@@ -491,6 +566,8 @@ class Interp(object):
                 return all(self.truth(x) for x in self.iterate(args[0]))
             if n == 'any':
                 return any(self.truth(x) for x in self.iterate(args[0]))
+            if n == 'reversed' and len(args) == 1:
+                return list(reversed(self.iterate(args[0])))
             if n in ('sum', 'min', 'max', 'sorted', 'abs', 'reversed'):
                 vals = args[0] if n == 'abs' else list(self.iterate(args[0])) if len(args) == 1 else list(args)
                 flat = [vals] if n == 'abs' else vals
@@ -507,6 +584,81 @@ class Interp(object):
                 if not vals:
                     raise Undecided('%s of an empty sequence' % n)
                 return min(vals) if n == 'min' else max(vals)
+            if n in ('itertools.takewhile', 'itertools.dropwhile') and len(args) == 2 and isinstance(args[0], Closure):
+                out, taking = [], True
+                for x in self.iterate(args[1]):
+                    ok = self.truth(args[0].interp.call_function(args[0].node, [x], args[0].env))
+                    if n.endswith('takewhile'):
+                        if not ok:
+                            break
+                        out.append(x)
+                    else:
+                        if taking and ok:
+                            continue
+                        taking = False
+                        out.append(x)
+                return out
+            if n == 'itertools.chain':
+                return [x for a in args for x in self.iterate(a)]
+            if n == 'itertools.chain.from_iterable' and len(args) == 1:
+                return [x for a in self.iterate(args[0]) for x in self.iterate(a)]
+            if n == 'itertools.product':
+                import itertools as _it
+                return [tuple(p) for p in _it.product(*[self.iterate(a) for a in args])]
+            if n == 'functools.reduce' and len(args) == 3 and isinstance(args[0], Closure):
+                acc = args[2]
+                for x in self.iterate(args[1]):
+                    acc = args[0].interp.call_function(args[0].node, [acc, x], args[0].env)
+                return acc
+            if n == 'functools.partial' and args and isinstance(args[0], Closure) and not kwargs:
+                base, bound = args[0], list(args[1:])
+                params = [a.arg for a in base.node.args.args]
+                rest = params[len(bound):]
+                lam = ast.parse('lambda %s: None' % ', '.join(rest)).body[0].value
+                env2 = dict(base.env)
+                env2['_partial_target'] = base
+                for k, v in enumerate(bound):
+                    env2['_partial_arg%d' % k] = v
+                call = ast.parse('_partial_target(%s)' % ', '.join(['_partial_arg%d' % k for k in range(len(bound))] + rest)).body[0].value
+                fn = ast.FunctionDef(name='<partial>', args=lam.args, body=[ast.Return(value=call)], decorator_list=[], returns=None, type_comment=None, type_params=[])
+                ast.fix_missing_locations(fn)
+                return Closure(fn, env2, self)
+            if n == 'iter' and len(args) == 1:
+                return self.iterate(args[0])
+            if n == 'next':
+                seq = self.iterate(args[0])
+                if seq:
+                    return seq[0]
+                if len(args) > 1:
+                    return args[1]
+                raise Raised('StopIteration')
+            if n in ('map', 'filter') and len(args) == 2:
+                fn = args[0]
+                items = self.iterate(args[1])
+
+                def app(x):
+                    if isinstance(fn, Closure):
+                        return fn.interp.call_function(fn.node, [x], fn.env)
+                    if fn is None:
+                        return x
+                    if isinstance(fn, tuple) and fn and fn[0] == 'builtin' and fn[1] in self.ext:
+                        return self.ext[fn[1]]([x], {})
+                    raise Undecided('map over %r' % (fn,))
+                if n == 'map':
+                    return [app(x) for x in items]
+                return [x for x in items if self.truth(app(x))]
+            if n == 'hasattr' and len(args) == 2 and isinstance(args[0], AbsObj) and isinstance(args[1], str):
+                return args[1] in args[0].attrs or args[1] in args[0].methods
+            if n == 'getattr' and len(args) in (2, 3) and isinstance(args[0], AbsObj) and isinstance(args[1], str):
+                if args[1] in args[0].attrs:
+                    return args[0].attrs[args[1]]
+                if args[1] in args[0].methods:
+                    return ('method', args[0], args[1])
+                if len(args) == 3:
+                    return args[2]
+                raise Raised('AttributeError')
+            if n == 'callable' and len(args) == 1:
+                return isinstance(args[0], Closure) or (isinstance(args[0], tuple) and args[0][:1] in (('builtin',), ('method',)))
             if n == 'enumerate':
                 return list(enumerate(self.iterate(args[0])))
             if n == 'zip':
